@@ -174,6 +174,8 @@ structure Cfg where
   valueShared : Bool
   /-- the treasure's `…Changed` flags are never cleared after a save -/
   flagsSticky : Bool
+  /-- `SetContentVoid` replaces typed content by void (false: it left typed content alone) -/
+  setVoidClearsTyped : Bool
   deriving DecidableEq, Repr
 
 def test (c : Cmp) (x bound : Int) : Bool :=
@@ -437,17 +439,19 @@ def mergeRec (cfg : Cfg) (old : Option Rec) (rq : SetReq) : Rec :=
     { key := rq.key, ct := rq.ct, val := (if rq.ct == .void then 0 else rq.val),
       created := rq.created, updated := rq.updated, expire := rq.expire, expFlag := rq.expire != 0, contFlag := true }
   | some o =>
-    -- `SetContentVoid` on an object that already has non-void content leaves the content alone
-    let keep := rq.ct == .void
+    -- `SetContentVoid` on an object that already has non-void content: replaces it, or (older code)
+    -- leaves the content alone
+    let keep := rq.ct == .void && !cfg.setVoidClearsTyped
     { key := o.key,
       ct := if keep then o.ct else rq.ct,
-      val := if keep then o.val else rq.val,
+      val := if keep then o.val else (if rq.ct == .void then 0 else rq.val),
       created := if rq.created != 0 then rq.created else o.created,
       updated := if rq.updated != 0 then rq.updated else o.updated,
       expire := if rq.expire != 0 then rq.expire else o.expire,
       expFlag := (cfg.flagsSticky && o.expFlag) || rq.expire != 0,
       -- the setters raise `contentChanged` only when the value really differs
-      contFlag := (cfg.flagsSticky && o.contFlag) || (!keep && (rq.ct != o.ct || rq.val != o.val)) }
+      contFlag := (cfg.flagsSticky && o.contFlag) ||
+        (!keep && (rq.ct != o.ct || (if rq.ct == .void then 0 else rq.val) != o.val)) }
 
 structure Query where
   slot : Slot
